@@ -57,6 +57,22 @@ def gen_writes(rng, disc, n, start_index=0, streams=None):
     return plan
 
 
+def gen_relpath(rng, world, disc, opt, plan, p):
+    """A relative --path, and something in the world that changes the working directory for
+    good (a test, or a test module at import time): children must still find the tests."""
+    if rng.random() >= p:
+        return
+    opt['relpath'] = True
+    cands = [d for d in disc if C.test_phases(d) and not d['t'].get('doctest')]
+    if cands and rng.random() < 0.6:
+        d = rng.choice(cands)
+        plan.append(C.fault_entry(d, rng.choice(C.test_phases(d)), {'a': 'chdir', 'to': '/'}))
+    elif world['modules']:
+        plan.append({'site': 'module.import',
+                     'ident': '%s.tests.%s' % (W.PKG, rng.choice(world['modules'])['name']),
+                     'a': 'chdir', 'to': '/'})
+
+
 def order_plan(plan):
     """writes must come before raises at the same site (a raise ends the hook)."""
     return [e for e in plan if e['a'] == 'write'] + [e for e in plan if e['a'] != 'write']
@@ -113,6 +129,10 @@ def gen_ws(seed, pid, bias):
         opt['shuffle_seed'] = rng.randint(0, 9999)
     if rng.random() < bias.get('p_j', 0.25):
         opt['j'] = rng.randint(2, 4)
+    if rng.random() < bias.get('p_t', 0.12):
+        # a test filter (an import failure is no test: no pattern may filter it away)
+        opt['t'] = rng.choice([['test_'], ['test_a', 'test_b'], ['TC0'], ['!test_c'],
+                               ['TC', '!nomatch'], ['test_m0']])
     if rng.random() < bias.get('p_layer_opt', 0.1) and world['layers']:
         opt['layer'] = [rng.choice(world['layers'])['name'] + '$']
     if rng.random() < bias.get('p_progress', 0.05):
@@ -124,6 +144,7 @@ def gen_ws(seed, pid, bias):
         knobs['defaults_split'] = rng.randint(0, 99)
     if rng.random() < bias.get('p_color', 0.08):
         opt['color'] = True
+    gen_relpath(rng, world, disc, opt, plan, bias.get('p_relpath', 0.06))
     if rng.random() < bias.get('p_xml', 0.06):
         opt['xml'] = True      # the XML report wrapper sits between the result and the formatter
     if rng.random() < bias.get('p_v4', 0.05):
